@@ -36,7 +36,7 @@ ASSUMPTIONS = [
 ]
 BUDGET = {
     "quick": dict(cases=2000, shards=4, timeout=1800),
-    "thorough": dict(cases=6000, shards=16, timeout=5400),
+    "thorough": dict(cases=10000, shards=16, timeout=5400),
 }
 ER_CLASSES = [c for c in G.CLASSES if c != "nondyadic"] + ["sub_eq_insdel", "sub_gt_insdel"]
 LOSS_CLASSES = ["loss_ref2d", "loss_ref3d", "loss_spread", "loss_equal_costs", "loss_tie_costs",
@@ -59,11 +59,12 @@ FLOORS = {
         "distinct": 2000,
     },
     "thorough": {
-        "events": {"error_rate": 100000, "prefix_error_rates": 100000, "minimum_error_rate_loss": 30000,
-                   "assert:count-of-some-optimal-alignment": 1000000},
+        "events": {"error_rate": 100000, "prefix_error_rates": 100000, "minimum_error_rate_loss": 25000,
+                   "assert:count-of-some-optimal-alignment": 1000000, "assert:oracle-enumeration": 200000,
+                   "assert:loss-value": 25000},
         "classes": dict({c: 4000 for c in ER_CLASSES}, exhaustive2=46128,
-                        **{c: 4000 for c in LOSS_CLASSES}),
-        "stats": {"pairs_lo_lt_hi": 10000, "cheapest_not_shortest": 10000},
+                        **{c: 3000 for c in LOSS_CLASSES}),
+        "stats": {"pairs_lo_lt_hi": 10000, "cheapest_not_shortest": 10000, "loss_zero_width_tensor": 300},
         "distinct": 100000,
     },
 }
